@@ -290,9 +290,12 @@ def gen_rowcond(rnd, d):
 
 
 REGEXES = ['al.a', '^aplpay', 'store$', 'st.re', '\\\\d+', '#\\\\d+', 'alfa\\\\s+store', 'alfa\\\\s*store', '\\\\bstore\\\\b',
-           'alfa(?! store)', 'a.*e', '\\\\w+ \\\\w+', 'x?alfa', '(alfa|zulu)', 'z+', 'proj:\\\\w+', '^\\\\s*proj']
-GROUP_REGEXES = ['#(\\\\d+)', '(al.a)', 'proj:(\\\\w+)', '(\\\\w+)$', '^(\\\\w+)', '(alfa|zulu) store', 'store (\\\\d+)', '(\\\\d+)']
-NONEMPTY_REGEXES = ['^aplpay\\\\s+', '\\\\d', '\\\\s+', 'a', 'store', '#\\\\d+', '[', 'al.a']
+           'alfa(?! store)', 'a.*e', '\\\\w+ \\\\w+', 'x?alfa', '(alfa|zulu)', 'z+', 'proj:\\\\w+', '^\\\\s*proj',
+           # the same texts with the escape classes in the other letter case: different patterns
+           '\\\\D+', '#\\\\D+', 'alfa\\\\S+store', 'alfa\\\\S*store', '\\\\Bstore\\\\B', '\\\\W+ \\\\W+', 'proj:\\\\W+', '^\\\\S*proj']
+GROUP_REGEXES = ['#(\\\\d+)', '(al.a)', 'proj:(\\\\w+)', '(\\\\w+)$', '^(\\\\w+)', '(alfa|zulu) store', 'store (\\\\d+)', '(\\\\d+)',
+                 '#(\\\\D+)', 'proj:(\\\\W+)', '(\\\\W+)$', '^(\\\\W+)', 'store (\\\\D+)', '(\\\\D+)']
+NONEMPTY_REGEXES = ['^aplpay\\\\s+', '\\\\d', '\\\\s+', 'a', 'store', '#\\\\d+', '[', 'al.a', '^aplpay\\\\S+', '\\\\D', '\\\\S+', '#\\\\D+']
 
 
 REAL_ENVS = ENVS + [
